@@ -20,6 +20,7 @@ import (
 	"fmt"
 	"io"
 	"math/rand"
+	"net"
 	"net/http"
 	"net/http/httptest"
 	"net/textproto"
@@ -201,7 +202,12 @@ type scenario struct {
 	oc        string
 	wake      chan struct{}
 	closeSend bool
-	done      chan struct{}
+	done      chan struct{} // closed when ServeHTTP returned
+	fwdDone   chan struct{} // closed when Forward returned
+	sendIn    chan struct{} // closed when the first ServerStream.Send was entered
+	sendOut   chan struct{} // closed when the first ServerStream.Send returned
+	sendOnce  sync.Once
+	sendOnce2 sync.Once
 }
 
 var (
@@ -211,7 +217,8 @@ var (
 
 func newScenario(kv map[string]string) *scenario {
 	id := seq.Add(1)
-	sc := &scenario{kind: kv["k"], rt: kv["rt"], early: -1, te: "none", oc: "-", tr: "-", wake: make(chan struct{}), done: make(chan struct{})}
+	sc := &scenario{kind: kv["k"], rt: kv["rt"], early: -1, te: "none", oc: "-", tr: "-", wake: make(chan struct{}), done: make(chan struct{}),
+		fwdDone: make(chan struct{}), sendIn: make(chan struct{}), sendOut: make(chan struct{})}
 	switch {
 	case sc.rt == "real":
 		sc.path = fmt.Sprintf("/c08.Unknown/M%d", id)
@@ -318,6 +325,7 @@ func (f recFwd) Forward(ctx context.Context, p grpcadapter.ForwardParams) error 
 	sc.mu.Lock()
 	sc.oc = outcome(err)
 	sc.mu.Unlock()
+	close(sc.fwdDone)
 	return err
 }
 
@@ -347,7 +355,9 @@ func (s *recStream) Recv(ctx context.Context, msg proto.Message) error {
 // Send records the messages the stream accepted (Send returned nil), in order.
 func (s *recStream) Send(ctx context.Context, msg proto.Message) error {
 	b, _ := proto.Marshal(msg)
+	s.sc.sendOnce.Do(func() { close(s.sc.sendIn) })
 	err := s.inner.Send(ctx, msg)
+	s.sc.sendOnce2.Do(func() { close(s.sc.sendOut) })
 	s.sc.mu.Lock()
 	if err == nil {
 		s.sc.sd = append(s.sc.sd, b)
@@ -458,6 +468,7 @@ func (t *targetStream) Close() {}
 
 var (
 	srvOnce sync.Once
+	handler http.Handler // the bridges, for in-process calls with a controlled ResponseWriter
 	srvH1   *httptest.Server
 	srvH2   *httptest.Server
 	cliH1   *http.Client
@@ -486,6 +497,7 @@ func servers() {
 				web.ServeHTTP(w, r)
 			}
 		})
+		handler = h
 		srvH1 = httptest.NewServer(h)
 		cliH1 = &http.Client{Transport: &http.Transport{DisableKeepAlives: true}, Timeout: 120 * time.Second}
 		srvH2 = httptest.NewUnstartedServer(h)
@@ -614,6 +626,27 @@ func (Area) Exec(input string) string {
 	return "BADOP"
 }
 
+// Every session has its own watchdog: a handler that has not returned `watchdog()` after the client saw the end
+// of the response (or gave up) is reported as stuck and the harness moves on. After a few stuck sessions the
+// budget shrinks so that a systematically hanging handler cannot stall the whole run.
+var hangs atomic.Int64
+
+func watchdog() time.Duration {
+	if hangs.Load() >= 3 {
+		return 200 * time.Millisecond
+	}
+	return 2 * time.Second
+}
+
+// handlerState waits for ServeHTTP to return: "returned" or "stuck".
+func (sc *scenario) handlerState() string {
+	if sc.wait(watchdog()) {
+		return "returned"
+	}
+	hangs.Add(1)
+	return "stuck"
+}
+
 func (sc *scenario) wait(d time.Duration) bool {
 	select {
 	case <-sc.done:
@@ -649,6 +682,9 @@ func chunkPattern(s string) []int {
 
 func execHTTP(ver string, kv map[string]string) string {
 	servers()
+	if ver == "sp" {
+		return execStalled(kv)
+	}
 	sc := newScenario(kv)
 	defer registry.Delete(sc.path)
 
@@ -675,27 +711,171 @@ func execHTTP(ver string, kv map[string]string) string {
 		}
 		pw.Close()
 	}()
-	req, _ := http.NewRequest(http.MethodPost, srv.URL+sc.path, pr)
+	// session watchdog: the whole exchange (8 MiB bodies take well under a second on loopback)
+	ctx, cancel := context.WithTimeout(context.Background(), 10*watchdog())
+	defer cancel()
+	req, _ := http.NewRequestWithContext(ctx, http.MethodPost, srv.URL+sc.path, pr)
 	req.Header.Set("Content-Type", "application/grpc-web+proto")
 	req.Header.Set("X-Grpc-Web", "1")
 	resp, err := cli.Do(req)
 	if err != nil {
 		pr.CloseWithError(err)
-		if !sc.wait(5 * time.Second) {
-			return "HANG client error " + common.HexS(err.Error())
+		if ctx.Err() != nil {
+			hangs.Add(1)
+			return fmt.Sprintf("HANG no-response hs=%s %s", sc.handlerState(), sc.observed())
 		}
-		return "CLIENTERR " + common.HexS(err.Error())
+		return fmt.Sprintf("CLIENTERR %s hs=%s", common.HexS(err.Error()), sc.handlerState())
 	}
 	body, rerr := io.ReadAll(resp.Body)
 	resp.Body.Close()
 	pr.CloseWithError(io.ErrClosedPipe)
-	if !sc.wait(30 * time.Second) {
-		return "HANG"
+	if rerr != nil && ctx.Err() != nil {
+		hangs.Add(1)
+		return fmt.Sprintf("HANG response-never-ends hs=%s %s body=%s", sc.handlerState(), sc.observed(), CB(body))
 	}
+	hs := sc.handlerState()
 	if rerr != nil {
-		return "CLIENTERR " + common.HexS(rerr.Error())
+		return fmt.Sprintf("CLIENTERR %s hs=%s", common.HexS(rerr.Error()), hs)
 	}
-	return fmt.Sprintf("st=%d %s body=%s gd=%s", resp.StatusCode, sc.observed(), CB(body), goDecode(body))
+	return fmt.Sprintf("st=%d hs=%s %s body=%s gd=%s", resp.StatusCode, hs, sc.observed(), CB(body), goDecode(body))
+}
+
+// ---------------------------------------------------------------------------------------------
+// stalled-writer scenarios (in-process): Forward returns while a response Send is still in flight
+
+// stallRW is a ResponseWriter whose first data-frame Write does not complete until released; every Write is
+// appended to the "wire" when it completes, so the buffer is the byte stream in the order it left the bridge.
+type stallRW struct {
+	hdr     http.Header
+	mu      sync.Mutex
+	code    int
+	calls   int
+	wire    []byte
+	blocked chan struct{} // closed when the stalled Write was entered
+	second  chan struct{} // closed when another Write was entered meanwhile
+	release chan struct{}
+}
+
+func (w *stallRW) Header() http.Header { return w.hdr }
+func (w *stallRW) WriteHeader(c int) {
+	w.mu.Lock()
+	if w.code == 0 {
+		w.code = c
+	}
+	w.mu.Unlock()
+}
+
+func (w *stallRW) Write(p []byte) (int, error) {
+	w.mu.Lock()
+	w.calls++
+	n := w.calls
+	w.mu.Unlock()
+	switch {
+	case n == 1 && len(p) > 0 && p[0] == 0x00:
+		close(w.blocked)
+		<-w.release
+	case n == 2:
+		close(w.second)
+	}
+	w.mu.Lock()
+	w.wire = append(w.wire, p...)
+	w.mu.Unlock()
+	return len(p), nil
+}
+
+// stallBody hands out the well-formed frames at once; the rest of the request only arrives once the response
+// Send is stalled: `tail` then EOF (badframe mode), or nothing until the call is over (timeout mode).
+type stallBody struct {
+	first []byte
+	tail  []byte
+	gate  <-chan struct{}
+	end   chan struct{}
+	hold  bool
+	phase int
+}
+
+func (b *stallBody) Read(p []byte) (int, error) {
+	switch b.phase {
+	case 0:
+		if len(b.first) > 0 {
+			n := copy(p, b.first)
+			b.first = b.first[n:]
+			return n, nil
+		}
+		b.phase = 1
+		fallthrough
+	case 1:
+		select {
+		case <-b.gate:
+		case <-b.end:
+			return 0, io.EOF
+		}
+		if b.hold {
+			<-b.end
+			return 0, io.EOF
+		}
+		b.phase = 2
+		fallthrough
+	default:
+		if len(b.tail) > 0 {
+			n := copy(p, b.tail)
+			b.tail = b.tail[n:]
+			return n, nil
+		}
+		return 0, io.EOF
+	}
+}
+
+func (b *stallBody) Close() error { return nil }
+
+// execStalled: `http sp … sp=timeout:<ms>|badframe`. The target answers after `ea` requests; its first message
+// stalls in the ResponseWriter; then the forwarding context ends (grpc-timeout) or the request stream fails
+// (`tl` arrives); the stalled Write is released only after Forward has returned (and the trailer had its chance
+// to be written). Output: the complete byte stream in wire order.
+func execStalled(kv map[string]string) string {
+	sc := newScenario(kv)
+	defer registry.Delete(sc.path)
+	var wire []byte
+	for _, fd := range unList(kv["fr"]) {
+		wire = append(wire, encFrame(fd)...)
+	}
+	mode := kv["sp"]
+	rw := &stallRW{hdr: http.Header{}, blocked: make(chan struct{}), second: make(chan struct{}), release: make(chan struct{})}
+	body := &stallBody{first: wire, tail: UnCB(kv["tl"]), gate: rw.blocked, end: make(chan struct{}), hold: strings.HasPrefix(mode, "timeout")}
+	req := httptest.NewRequest(http.MethodPost, sc.path, body)
+	req.Header.Set("Content-Type", "application/grpc-web+proto")
+	if ms, ok := strings.CutPrefix(mode, "timeout:"); ok {
+		req.Header.Set("Grpc-Timeout", ms+"m")
+	}
+	go handler.ServeHTTP(rw, req)
+
+	after := func(ch <-chan struct{}, d time.Duration) bool {
+		select {
+		case <-ch:
+			return true
+		case <-time.After(d):
+			return false
+		}
+	}
+	blk, fwd := "no", "pending"
+	if after(rw.blocked, watchdog()) {
+		blk = "yes"
+	}
+	if after(sc.fwdDone, watchdog()) {
+		fwd = "returned"
+		after(rw.second, 150*time.Millisecond) // give a (wrongly) early trailer the time to be written
+	}
+	close(rw.release)
+	hs := sc.handlerState()
+	close(body.end)
+	rw.mu.Lock()
+	out := append([]byte{}, rw.wire...)
+	code := rw.code
+	rw.mu.Unlock()
+	if code == 0 {
+		code = 200
+	}
+	return fmt.Sprintf("st=%d hs=%s blk=%s fwd=%s %s body=%s gd=%s", code, hs, blk, fwd, sc.observed(), CB(out), goDecode(out))
 }
 
 func execWS(kv map[string]string) string {
@@ -708,36 +888,57 @@ func execWS(kv map[string]string) string {
 	for _, it := range unList(kv["ms"]) {
 		msgs = append(msgs, encWSItem(it))
 	}
+	// sp=stall: the client does not read while the target's (large) first answer is being sent, then sends its
+	// last message (a framing error) so that Forward returns while that Send is still in flight, then reads on
+	stall := kv["sp"] == "stall"
 
-	d := websocket.Dialer{Subprotocols: []string{"grpc-websockets"}, HandshakeTimeout: 20 * time.Second,
+	d := websocket.Dialer{Subprotocols: []string{"grpc-websockets"}, HandshakeTimeout: 10 * time.Second,
 		ReadBufferSize: 1 << 16, WriteBufferSize: 1 << 16}
+	if stall {
+		d.NetDialContext = func(ctx context.Context, network, addr string) (net.Conn, error) {
+			c, err := (&net.Dialer{}).DialContext(ctx, network, addr)
+			if tc, ok := c.(*net.TCPConn); ok {
+				_ = tc.SetReadBuffer(1 << 16) // a fixed small receive buffer: the server's write must block
+			}
+			return c, err
+		}
+	}
 	c, resp, err := d.Dial("ws"+strings.TrimPrefix(srvH1.URL, "http")+sc.path, nil)
 	if err != nil {
 		code := 0
 		if resp != nil {
 			code = resp.StatusCode
 		}
-		sc.wait(5 * time.Second)
-		return fmt.Sprintf("up=%d ws=- cl=none %s", code, sc.observed())
+		return fmt.Sprintf("up=%d hs=%s ws=- cl=none %s", code, sc.handlerState(), sc.observed())
 	}
 	defer c.Close()
 	// the default handler answers the close frame and turns a failure of that write (the server has already
 	// closed the TCP connection) into the read error; the close code is what we want to observe
 	c.SetCloseHandler(func(int, string) error { return nil })
 
+	limit := 10 * watchdog() // session watchdog
 	var got [][]byte
 	cl := "none"
 	rdone := make(chan struct{})
+	startReader := make(chan struct{})
+	if !stall {
+		close(startReader)
+	}
 	go func() {
 		defer close(rdone)
-		_ = c.SetReadDeadline(time.Now().Add(60 * time.Second))
+		<-startReader
+		_ = c.SetReadDeadline(time.Now().Add(limit))
 		for {
 			mt, data, err := c.ReadMessage()
 			if err != nil {
 				var ce *websocket.CloseError
-				if errors.As(err, &ce) {
+				var ne net.Error
+				switch {
+				case errors.As(err, &ce):
 					cl = strconv.Itoa(ce.Code)
-				} else {
+				case errors.As(err, &ne) && ne.Timeout():
+					cl = "timeout"
+				default:
 					cl = "err"
 				}
 				return
@@ -749,22 +950,46 @@ func execWS(kv map[string]string) string {
 			got = append(got, data)
 		}
 	}()
-	for _, m := range msgs {
-		_ = c.SetWriteDeadline(time.Now().Add(30 * time.Second))
+	after := func(ch <-chan struct{}, d time.Duration) bool {
+		select {
+		case <-ch:
+			return true
+		case <-time.After(d):
+			return false
+		}
+	}
+	blk, fwd := "no", "pending"
+	for i, m := range msgs {
+		if stall && i == len(msgs)-1 {
+			if after(sc.sendIn, watchdog()) && !after(sc.sendOut, 250*time.Millisecond) {
+				blk = "yes" // Send entered and still not back: stalled on the connection
+			}
+		}
+		_ = c.SetWriteDeadline(time.Now().Add(limit))
 		if err := c.WriteMessage(websocket.BinaryMessage, m); err != nil {
 			break // the server closed already
 		}
 	}
+	extra := ""
+	if stall {
+		if after(sc.fwdDone, watchdog()) {
+			fwd = "returned"
+			time.Sleep(100 * time.Millisecond)
+		}
+		close(startReader)
+		extra = fmt.Sprintf(" blk=%s fwd=%s", blk, fwd)
+	}
 	select {
 	case <-rdone:
-	case <-time.After(60 * time.Second):
-		return "HANG reader"
+	case <-time.After(limit + time.Second):
+		cl = "timeout"
+	}
+	if cl == "timeout" {
+		hangs.Add(1)
 	}
 	c.Close()
-	if !sc.wait(30 * time.Second) {
-		return "HANG"
-	}
-	return fmt.Sprintf("up=%d ws=%s cl=%s %s", resp.StatusCode, cbList(got), cl, sc.observed())
+	hs := sc.handlerState()
+	return fmt.Sprintf("up=%d hs=%s%s ws=%s cl=%s %s", resp.StatusCode, hs, extra, cbList(got), cl, sc.observed())
 }
 
 // ---------------------------------------------------------------------------------------------
@@ -1076,6 +1301,58 @@ func genWS(r *rand.Rand) string {
 	return fmt.Sprintf("ws k=%s cd=%s rt=%s hd=%s ms=%s %s ea=%s", kind, codec, genRoute(r), hd, ms, genScript(r, codec), ea)
 }
 
+// genStalled: Forward returns (grpc-timeout / request-side error) while a response Send is stalled in the writer
+func genStalled(r *rand.Rand, timeout bool) string {
+	kind := common.Pick(r, []string{"bd", "bd", "cs"})
+	if timeout {
+		kind = common.Pick(r, []string{"bd", "cs", "ss", "uu"})
+	}
+	nf := r.Intn(4)
+	ea := strconv.Itoa(nf)
+	if kind == "uu" || kind == "ss" {
+		nf, ea = 1, "-" // unary request: the target answers after CloseSend
+	}
+	var frs []string
+	for i := 0; i < nf; i++ {
+		frs = append(frs, "00:=:"+CB(payloadBytes(r, common.Pick(r, []int{0, 1, 7, 200}))))
+	}
+	fr := "-"
+	if len(frs) > 0 {
+		fr = strings.Join(frs, ",")
+	}
+	nr := 1
+	if kind == "bd" || kind == "ss" {
+		nr = 1 + r.Intn(3)
+	}
+	var rs [][]byte
+	for i := 0; i < nr; i++ {
+		rs = append(rs, payloadBytes(r, common.Pick(r, []int{0, 1, 5, 300, 70000})))
+	}
+	tl, sp := "x", fmt.Sprintf("timeout:%d", 80+20*r.Intn(4))
+	if !timeout {
+		tl = common.Pick(r, []string{"x00", "x0000", "x00000000", "x00ffffffff", "x00004000016162", "x00000000056162"})
+		sp = "badframe"
+	}
+	count("http:sp:" + strings.SplitN(sp, ":", 2)[0])
+	return fmt.Sprintf("http sp k=%s cd=raw rt=ok fr=%s tl=%s ck=- rs=%s fs=0:x tm=- ea=%s sp=%s", kind, fr, tl, cbList(rs), ea, sp)
+}
+
+func genStalledWS(r *rand.Rand) string {
+	kind := common.Pick(r, []string{"bd", "cs"})
+	nm := 1 + r.Intn(3)
+	var items []string
+	for i := 0; i < nm; i++ {
+		items = append(items, "d:"+CB(payloadBytes(r, common.Pick(r, []int{0, 1, 9, 300}))))
+	}
+	items = append(items, "r:"+CB(common.Pick(r, [][]byte{{}, {0, 0}, {0, 0, 0, 0, 0}})))
+	rs := [][]byte{bytes.Repeat([]byte{byte('a' + r.Intn(26))}, 8<<20)}
+	if kind == "bd" && r.Intn(2) == 0 {
+		rs = append(rs, []byte{2})
+	}
+	count("ws:sp:stall")
+	return fmt.Sprintf("ws k=%s cd=raw rt=ok hd=ok:x ms=%s rs=%s fs=0:x tm=- ea=%d sp=stall", kind, strings.Join(items, ","), cbList(rs), nm)
+}
+
 func (Area) Gen(r *rand.Rand, tier string, emit func(string)) {
 	// url.PathEscape on all 256 single bytes, exhaustively, every run
 	for b := 0; b < 256; b++ {
@@ -1105,5 +1382,18 @@ func (Area) Gen(r *rand.Rand, tier string, emit func(string)) {
 	}
 	for i := 0; i < nWS; i++ {
 		emit(genWS(r))
+	}
+	nT, nB, nS := 6, 12, 2
+	if tier == "thorough" {
+		nT, nB, nS = 40, 120, 8
+	}
+	for i := 0; i < nT; i++ {
+		emit(genStalled(r, true))
+	}
+	for i := 0; i < nB; i++ {
+		emit(genStalled(r, false))
+	}
+	for i := 0; i < nS; i++ {
+		emit(genStalledWS(r))
 	}
 }
